@@ -83,16 +83,27 @@ def _buffer_len(layer):
     return None if b is None else H.length_of(b)
 
 
-def h_stream(ctx, k, m):
+def h_stream(ctx, k, m, reuse=False):
+    """reuse: the caller reads into ONE bytearray that it clears and refills for every read (a dispatcher with a receive buffer),
+    so whatever the layer keeps must be its own copy"""
     layer, up, down = _layer(True)
     ns, payloads, stream = _frames(ctx, k)
     total = H.length_of(stream)
     bounds = _cuts(ctx, total, m)
     rest = stream
+    buf = SymSeq([], "bytearray") if H.sym(ctx) else bytearray()
     for i in range(m):
         ln = bounds[i + 1] - bounds[i]
         chunk, rest = rest[:ln], rest[ln:]
-        layer.receive(chunk)
+        if reuse:
+            if H.sym(ctx):
+                buf.items[:] = []
+            else:
+                del buf[:]
+            buf.extend(chunk)
+            layer.receive(buf)
+        else:
+            layer.receive(chunk)
     obs = [("count==%d" % k, len(up) == k), ("nothing-sent-down", len(down) == 0)]
     for j in range(min(k, len(up))):
         obs.append(("frame%d-intact" % j, H.rope_eq(up[j], payloads[j])))
@@ -247,6 +258,9 @@ def cases(tier):
     cs = []
     for k, m in km:
         cs.append(dict(name="stream[k=%d,m=%d]" % (k, m), fn=h_stream, args=(k, m), weight=(k + 1) ** m,
+                       timeout_s=120 if tier == "quick" else 2400, max_paths=200000))
+    for k, m in ((1, 2), (2, 2), (2, 3)) if tier == "quick" else ((1, 2), (2, 2), (2, 3), (3, 3), (3, 4)):
+        cs.append(dict(name="stream[k=%d,m=%d,caller reuses its read buffer]" % (k, m), fn=h_stream, args=(k, m, True), weight=(k + 1) ** m,
                        timeout_s=120 if tier == "quick" else 2400, max_paths=200000))
     for k, m in ((2, 1), (2, 2), (3, 2)) if tier == "quick" else ((2, 1), (2, 2), (3, 2), (3, 3), (4, 2)):
         cs.append(dict(name="consumer-fault[k=%d,m=%d]" % (k, m), fn=h_consumer_fault, args=(k, m), weight=(k + 1) ** m, timeout_s=120 if tier == "quick" else 2400, max_paths=200000))
